@@ -617,7 +617,7 @@ def run(repo, chk):
     # (EPANET applies setting and status together, on the branch that carries the action; WNTRSimulator adds a companion status control for it)
     from .c05 import companion_rules
     companion_rules(repo, chk, rule="R-C03-4", branch_rule="R-C03-4")
-    chk.floor("R-C03-4", 5)
+    chk.floor("R-C03-4", 9)
 
 
 WITNESSES = [
